@@ -51,7 +51,11 @@ d = json.load(open(sys.argv[1]))
 o = d.get("other_sync_primitives_not_owned_by_simulator") or []
 l = d.get("map_range_loops_not_rewritten") or []
 if o:
-    print("WARNING the tree uses synchronisation / time / randomness the simulator does not own (a task blocked in one of them stalls the run -> exit 2, never a VIOLATION):", ", ".join(o))
+    foreign = [x for x in o if not x.startswith("sync (handled)")]
+    if foreign:
+        print("WARNING the tree uses synchronisation / time / randomness the simulator does not own (a task blocked in one of them stalls the run -> exit 2, never a VIOLATION):", ", ".join(foreign))
+    if len(foreign) != len(o):
+        print("NOTE the tree starts goroutines / uses channels, sync.Once or sync.WaitGroup: scheduled cooperatively (go statements become tasks, sends and receives outside select poll); vector-clock check off, race detector on")
 if l:
     print("WARNING map range loops left in Go's random order:", ", ".join(l))
 if d.get("mutex_type_sites_rewritten", 0) == 0:
